@@ -398,7 +398,13 @@ class Interp:
 
     # ------------------------------------------------------------------ expressions
     def truth(self, e, loc, gl, G, F):
-        return self.num(self.ev(e, loc, gl, G, F)) != 0
+        # a comparison evaluated as the test of if / while: remember the first one that met a NaN operand (the
+        # transpiler branches on the negated comparison, which is not the negation when an operand is NaN)
+        self._in_test = getattr(self, "_in_test", 0) + 1
+        try:
+            return self.num(self.ev(e, loc, gl, G, F)) != 0
+        finally:
+            self._in_test -= 1
 
     def ev(self, e, loc, gl, G, F):
         T = type(e)
@@ -465,6 +471,8 @@ class Interp:
                 return float((lv == rv) == isinstance(e.ops[0], ast.Eq))
             l = self.num(lv)
             r = self.num(rv)
+            if (l != l or r != r) and getattr(self, "_in_test", 0) and "nan_test_at" not in self.stat:
+                self.stat["nan_test_at"] = len(self.effects)
             return float(BIN[CMPOP[type(e.ops[0])]](l, r))
         if T is ast.IfExp:
             c = self.num(self.ev(e.test, loc, gl, G, F))
